@@ -225,11 +225,73 @@ RequestTable(B, r, M) ==
        IN IF b.sign = 0 \/ k.sign = 0 THEN 0
           ELSE FMul(FMul(b.sign, k.sign), can[<<b.lab, k.lab>>][r.order + 1])])
 
+(***************************************************************************)
+(* Properties (C05).  Operator                                             *)
+(*   d = 1/(nc! na!) sum d^{p..}_{q..} a+_p.. (a_q.. reversed)             *)
+(*     = sum over ascending tuples d^{p..}_{q..} a+_p1..a+_pnc a_qna..a_q1 *)
+(* with the model's values of the antisymmetric tensor d.                  *)
+(*   "T": transition moment   p_I sum_I X_I <I|d|Psi>                      *)
+(*   "P": expectation value   p_I p_J sum_IJ X_I <I| d - <d>_gs |J> Y_J    *)
+(* sums over unrestricted indices, p = 1/sqrt(n_o! n_v!), X / Y arbitrary  *)
+(* antisymmetric amplitude vectors: in terms of canonical labels the       *)
+(* factor is sqrt(n_o! n_v!).                                              *)
+AscTuples(S, k) == {t \in [1..k -> S] : Ascending(t)}
+
+GenOpCols(M, nid, nc, na, DSfrom, DSto) ==
+  TLCEval([D \in DSfrom |->
+    FoldSet(LAMBDA pq, v :
+              LET ops == [k \in 1..nc |-> <<"Fd", pq[1][k]>>] \o
+                         [k \in 1..na |-> <<"F", pq[2][na + 1 - k]>>]
+              IN AccumOn(v, ApplyString(ops, Len(ops), [s |-> 1, D |-> D]),
+                         TensorDirect("A", nid, pq[1], pq[2], M)),
+            VZero(DSto), AscTuples(1..NOrb(M), nc) \X AscTuples(D, na))])
+
+MatVecTo(Cols, v, DSto) ==
+  TLCEval([Dp \in DSto |-> FoldSet(LAMBDA D, a : FAdd(a, FMul(Cols[D][Dp], v[D])), 0, DOMAIN v)])
+VSApplyTo(Cols, v, DSto) == TLCEval([n \in 1..Len(v) |-> MatVecTo(Cols, v[n], DSto)])
+
+Fact(n) == CASE n = 0 -> 1 [] n = 1 -> 1 [] n = 2 -> 2 [] n = 3 -> 6 [] OTHER -> 24
+SqrtImage(n) == CASE n = 1 -> 1 [] n = 2 -> Sqrt2 [] n = 4 -> 2 [] n = 6 -> FMul(Sqrt2, Sqrt3)
+                  [] n = 12 -> FMul(2, Sqrt3) [] n = 36 -> 6 [] OTHER -> Assert(FALSE, <<"sqrt image", n>>)
+ClassFactor(variant, c) ==
+  LET cl == Classes(variant)[c] IN SqrtImage(Fact(cl[1]) * Fact(cl[2]))
+
+AmplVal(M, nid, lab) == TensorDirect("M", nid, lab.v, lab.o, M)
+
+PropertyValue(B, r, M) ==
+  LET K == B.K
+      N0 == Dets(M)
+  IN IF r.what = "T" THEN
+       LET dpsi == VSApplyTo(GenOpCols(M, r.dn, r.nc, r.na, N0, B.DS), B.psi, B.DS)
+           tot == FoldSet(LAMBDA I, acc :
+                            SAdd(acc, [n \in 1..(K + 1) |->
+                                         FMul(AmplVal(M, r.xn, I), VSDot(B.st[r.bc][I], dpsi)[n])]),
+                          SZero(K), DOMAIN B.st[r.bc])
+       IN FMul(ClassFactor(B.variant, r.bc), tot[r.order + 1])
+     ELSE
+       LET dcols == GenOpCols(M, r.dn, r.nc, r.na, B.DS, B.DS)
+           gsd == IF r.sub /\ r.nc = r.na
+                  THEN ExpectSeries(B.R, GenOpCols(M, r.dn, r.nc, r.na, N0, N0), K)
+                  ELSE SZero(K)
+           dket == TLCEval([J \in DOMAIN B.st[r.kc] |-> VSApplyTo(dcols, B.st[r.kc][J], B.DS)])
+           tot == FoldSet(LAMBDA IJ, acc :
+                    LET I == IJ[1]  J == IJ[2]
+                        el == SSub(VSDot(B.st[r.bc][I], dket[J]),
+                                   IF r.bc = r.kc /\ I = J THEN gsd ELSE SZero(K))
+                        w == FMul(AmplVal(M, r.xn, I), AmplVal(M, r.yn, J))
+                    IN SAdd(acc, [n \in 1..(K + 1) |-> FMul(w, el[n])]),
+                    SZero(K), (DOMAIN B.st[r.bc]) \X (DOMAIN B.st[r.kc]))
+       IN FMul(FMul(ClassFactor(B.variant, r.bc), ClassFactor(B.variant, r.kc)), tot[r.order + 1])
+
 IsrModel(M0) ==
   LET M == RsptModel(M0)          \* amplitude tables for the derived expressions
       g == M.isr
       B == IsrBuild(M, g.variant, g.K, g.ncls)
-      tabs == FoldSet(LAMBDA k, t : PutTab(t, g.req[k].nid, RequestTable(B, g.req[k], M)),
+      tabs == FoldSet(LAMBDA k, t :
+                        PutTab(t, g.req[k].nid,
+                               IF g.req[k].what \in {"T", "P"}
+                               THEN ConstTab(PropertyValue(B, g.req[k], M))
+                               ELSE RequestTable(B, g.req[k], M)),
                       M.tabs, 1..Len(g.req))
   IN [M EXCEPT !.tabs = tabs]
 
